@@ -2,7 +2,7 @@ ID = 'C15'
 FS0 = ['--max-field-sensitivity-array-size', '0']
 UNITS = {
     # communicate reads in 4096-byte pieces (`read(fd, 4096)`, a literal): replaced by VERIF_COMM_BLOCK in a copy of Process.cc
-    'proc': dict(wrap='wrap.cc', shim=True, new_block=64, cxxflags=['-DVERIF_COMM_BLOCK=4', '-DVERIF_DEQUE_CAP=4'],  # deque shim capacity 4 (>= W+1 chunks)
+    'proc': dict(wrap='wrap.cc', shim=True, new_block=64, cuts=[r'^_ZN5phosg8io_errorC1Ei$', r'^_ZN5phosg16string_for_errorB5cxx11Ei$'], cxxflags=['-DVERIF_COMM_BLOCK=4', '-DVERIF_DEQUE_CAP=4'],  # deque shim capacity 4 (>= W+1 chunks)
                  src_subst={'Process.cc': [(r'read\(this->stdout_read_fd, 4096\)', 'read(this->stdout_read_fd, VERIF_COMM_BLOCK)', 1)]}),
 }
 BOUNDS = ''
